@@ -6,7 +6,7 @@ open Lean Geff Geff.Proto Geff.Dataframe
              "node_props":[{"name":s,"trail":[k,…],"rows":[[tok,…],…],"missing":null|[bool,…]},…],
              "edge_props":[…]}                      (tok = any string)
 answer : {"ok":{"nodes":[[col,[tok|null,…]],…],"node_warn":[[name,ndim],…],"edges":…,"edge_warn":…}}
-         or {"exc":"ValueError"|"IndexError"} -/
+         or {"exc":"ValueError"|"IndexError"};  "collision":[nodes?,edges?] = ¬ the theorems' NoCollision -/
 
 def getStrList (j : Json) : Except String (List String) := do
   (← j.getArr?).toList.mapM (fun x => x.getStr?)
@@ -55,8 +55,9 @@ def handle (j : Json) : Except String Json := do
     | _ => throw "pair expected")
   let nps ← (← (← j.getObjVal? "node_props").getArr?).toList.mapM getProp
   let eps ← (← (← j.getObjVal? "edge_props").getArr?).toList.mapM getProp
+  let coll := Json.arr #[Json.bool (!noCollisionB ["id"] nps), Json.bool (!noCollisionB ["source", "target"] eps)]
   match geffToDataframes ⟨nodeIds, edges, nps, eps⟩ with
-  | .ok t => return Json.mkObj [("ok", Json.mkObj [("nodes", dictJson t.nodes), ("node_warn", warnJson t.nodeWarnings),
+  | .ok t => return Json.mkObj [("collision", coll), ("ok", Json.mkObj [("nodes", dictJson t.nodes), ("node_warn", warnJson t.nodeWarnings),
                                                    ("edges", dictJson t.edges), ("edge_warn", warnJson t.edgeWarnings)])]
   | .valueError => return Json.mkObj [("exc", "ValueError")]
   | .indexError => return Json.mkObj [("exc", "IndexError")]
